@@ -1,43 +1,9 @@
 import XjsModel.Spec.Comments
+/-
+  The entries replayed for a node start with those of its first token (C15: a comment in front of a statement is
+  written in front of that statement's code).
+-/
 namespace Xjs
-mutual
-  /-- the first token of a node in source order: where the trivia in front of the node is attached -/
-  def Expr.firstTok : Expr → Option Token
-    | .none => Option.none
-    | .ident id => some id.tok
-    | .int tok | .float tok | .null tok => some tok
-    | .str tok _ | .raw tok _ | .bool tok _ => some tok
-    | .letE tok _ _ => some tok
-    | .binary _ l _ _ => l.firstTok
-    | .unary tok _ _ => some tok
-    | .postfix _ l _ => l.firstTok
-    | .group tok _ _ => some tok
-    | .call _ f _ => f.firstTok
-    | .member _ o _ _ => o.firstTok
-    | .assign _ l _ => l.firstTok
-    | .compound _ l _ _ => l.firstTok
-    | .func tok _ _ _ => some tok
-    | .array tok _ _ => some tok
-    | .object tok _ _ => some tok
-end
-def Stmt.firstTok : Stmt → Option Token
-  | .none => Option.none
-  | .letS tok _ _ | .ret tok _ | .funcD tok _ _ _ | .block tok _ _ | .ifS tok _ _ _ | .whileS tok _ _ | .forS tok _ _ _ _ => some tok
-  | .exprS e => e.firstTok
-
-
-/-- along the left spine no postfix operator token carries trivia (always so in a parsed tree: a token after a `//`
-    comment is after a line break, and `++` / `--` after a line break is not a postfix operator) -/
-def Expr.postfixBare : Expr → Bool
-  | .binary _ l _ _ | .call _ l _ | .member _ l _ _ | .assign _ l _ | .compound _ l _ _ => l.postfixBare
-  | .postfix tok l _ => tok.comments.isEmpty && l.postfixBare
-  | _ => true
-
-def Stmt.postfixBare : Stmt → Bool
-  | .exprS e => e.postfixBare
-  | _ => true
-
-def headCmts (t : Option Token) : List Bytes := (t.map (·.comments)).getD []
 
 /-- the entries replayed for a node start with those of its first token -/
 theorem Expr.cmts_head : ∀ (e : Expr), e.postfixBare = true → ∃ rest, e.cmts = headCmts e.firstTok ++ rest
